@@ -63,6 +63,9 @@ type c09Case struct {
 	ASC    int      `json:"asc"`
 	Frames []c09Src `json:"frames"`
 	ASCRaw []byte   `json:"asc_raw,omitempty"` // probes only: overrides ASC
+	// LateMeta: the muxer is built before the parameter sets are known (SDP without sprop-parameter-sets); they are
+	// stored into the shared VideoMeta when they arrive in-band, exactly as the RTP depacketizer does (only if empty).
+	LateMeta bool `json:"late_meta,omitempty"`
 }
 
 // ticks -> ns such that floor(ns*90000/1e9) == ticks exactly.
@@ -153,6 +156,20 @@ func c09Run(c *kit.Ctx, cs *c09Case) (out []byte, ok bool) {
 	vmeta := &codec.VideoMeta{Codec: "H264", Width: 1280, Height: 720, ClockRate: 90000,
 		Sps: append([]byte(nil), ps[0]...), Pps: append([]byte(nil), ps[1]...)}
 	ameta := &codec.AudioMeta{Codec: "AAC", SampleRate: c09Rates[a[1]], SampleSize: 16, Channels: c09Chans[a[2]], Sps: cs.asc()}
+	if cs.LateMeta {
+		vmeta.Sps, vmeta.Pps = nil, nil
+	}
+	learn := func(f *c09Src) {
+		if !cs.LateMeta {
+			return
+		}
+		if f.Meta == "sps" && len(vmeta.Sps) == 0 {
+			vmeta.Sps = f.data
+		}
+		if f.Meta == "pps" && len(vmeta.Pps) == 0 {
+			vmeta.Pps = f.data
+		}
+	}
 	var buf bytes.Buffer
 	w, err := mpegts.NewWriter(&buf)
 	if err != nil {
@@ -175,6 +192,7 @@ func c09Run(c *kit.Ctx, cs *c09Case) (out []byte, ok bool) {
 			var pan interface{}
 			func() {
 				defer func() { pan = recover() }()
+				learn(f)
 				if f.Audio {
 					perr = ap.Packetize(toFrame(f))
 				} else {
@@ -202,6 +220,14 @@ func c09Run(c *kit.Ctx, cs *c09Case) (out []byte, ok bool) {
 		return nil, false
 	}
 	defer mux.Close()
+	// LateMeta cases carry both parameter sets first: they are stored after the muxer was built and before it is
+	// handed any frame, so the harness never writes the meta while the muxer routine reads it
+	for i := range cs.Frames {
+		if cs.Frames[i].Meta == "" {
+			break
+		}
+		learn(&cs.Frames[i])
+	}
 	for i := range cs.Frames {
 		mux.WriteFrame(toFrame(&cs.Frames[i]))
 	}
@@ -630,6 +656,22 @@ func runC09(c *kit.Ctx) {
 			{Meta: "sps", PtsNs: c09Ns(T0), DtsNs: c09Ns(T0), ID: g.nextID()},
 			{Meta: "pps", PtsNs: c09Ns(T0), DtsNs: c09Ns(T0), ID: g.nextID()},
 			g.v(5, 300, T0, T0), g.v(1, 120, T0+3000, T0+3000)}})
+	}
+
+	// parameter sets unknown when the muxer is built (SDP without sprop-parameter-sets), learned in-band before the first key frame
+	for k := 0; k < c.Pick(24, 200); k++ {
+		ps, path := k%2, paths[(k/2)%2]
+		sp := func() c09Src { return c09Src{Meta: "sps", PtsNs: c09Ns(T0), DtsNs: c09Ns(T0), ID: g.nextID()} }
+		pp := func() c09Src { return c09Src{Meta: "pps", PtsNs: c09Ns(T0), DtsNs: c09Ns(T0), ID: g.nextID()} }
+		sz := 1 + (k*37)%900
+		fr := []c09Src{sp(), pp(), g.v(5, sz, T0, T0), g.v(1, 1+sz/2, T0+3000, T0+3000)}
+		if k%3 == 1 {
+			fr = []c09Src{sp(), pp(), g.v(1, sz, T0, T0), g.a(100, T0+100), g.v(5, sz+3, T0+3000, T0+3000), sp(), pp(), g.v(5, sz, T0+6000, T0+6000)}
+		}
+		if k%3 == 2 {
+			fr = []c09Src{pp(), sp(), g.v(6, 20, T0, T0), g.v(5, sz, T0, T0), g.v(5, sz+1, T0+3000, T0+3000)}
+		}
+		g.run(c09Case{Family: "latemeta", Path: path, PS: ps, LateMeta: true, Frames: fr})
 	}
 
 	// (3) PES larger than 65535 : the PES_packet_length switch-over, every size in the window.
